@@ -83,3 +83,24 @@ Definition run_c07p (inp : sx) : sx :=
   let descs := sx_list (sx_nth inp 0) in
   let rules := map dec_rule descs in
   L (run_queries_p rules descs empty_cache empty_tcache (sx_list (sx_nth inp 1))).
+
+(* ---------------------------------------------------------------- decidable hypotheses, evaluated on the case
+   run_c07d = run_c07p with ONE more output field appended after the answers:
+     [rank_ok, closed_ok, depth]
+   rank_ok   = Count/ParseTreesDeciders.v rankb of the rules decoded from the descriptors (1: a productivity
+               certificate exists for this specification, for all sizes - ParseTreesDecidersProofs.v rankb_sound),
+   closed_ok = closedb of them (closedb_sound),
+   depth     = the largest position of the computed topological numbering of the same-size class graph when
+               rank_ok, else 0 (compared with the harness's own longest-path computation). *)
+From CSS Require Import Count.ParseTreesDeciders.
+
+Definition rules_of_descs (descs : list sx) : list (rule Z) := map (fun d => fst (dec_rule d)) descs.
+
+Definition rank_verdict (descs : list sx) : sx :=
+  let rs := rules_of_descs descs in
+  let pos := find_pos rs in
+  let ok := check_pos rs pos in
+  L [of_bool ok; of_bool (closedb rs); of_nat (if ok then fold_right Nat.max 0%nat pos else 0%nat)].
+
+Definition run_c07d (inp : sx) : sx :=
+  L (sx_list (run_c07p inp) ++ [rank_verdict (sx_list (sx_nth inp 0))]).
